@@ -13,12 +13,30 @@ export CARGO_NET_OFFLINE=true
 FAST="$SIM/target/simfast/ckc-sim"
 CHK="$SIM/target/simchk/ckc-sim"
 # processes that execute crate code run without address-space randomisation (see sim.rs child_command)
-NOASLR=""; [ -x /usr/bin/setarch ] && [ -z "${CKC_SIM_NO_SETARCH:-}" ] && NOASLR="setarch $(uname -m) -R"
+NOASLR=""
+if [ -x /usr/bin/setarch ] && [ -z "${CKC_SIM_NO_SETARCH:-}" ] && /usr/bin/setarch "$(uname -m)" -R true 2>/dev/null; then
+  NOASLR="setarch $(uname -m) -R"
+else
+  export CKC_SIM_NO_SETARCH=1   # not there, or the sandbox refuses personality(ADDR_NO_RANDOMIZE)
+fi
 
 build() {
   # Rebuilds ckc-rs from the current working tree (path dependency) under both profiles.
-  local log="$SIM/target/build.log"
+  # cargo judges the freshness of a path dependency by modification time alone; a tree that was
+  # changed and then restored with older time stamps (cp -p, rsync -a, tar) would keep the binaries
+  # of the changed tree. So the *content* of the repository's sources is compared with a stamp, and
+  # on any difference the crate's build output is discarded first.
+  local log="$SIM/target/build.log" r stamp now
   mkdir -p "$SIM/target"
+  r="$(repo_path)"
+  stamp="$SIM/target/repo-content.stamp"
+  now="$( (cd "$r" && find src Cargo.toml Cargo.lock -type f 2>/dev/null | LC_ALL=C sort | xargs sha256sum 2>/dev/null) | sha256sum | cut -d' ' -f1)"
+  if [ ! -f "$stamp" ] || [ "$(cat "$stamp")" != "$now" ]; then
+    for prof in simfast simchk; do
+      (cd "$SIM" && cargo clean --offline --quiet -p ckc-rs --profile "$prof") >/dev/null 2>&1 || true
+    done
+    rm -f "$stamp"
+  fi
   for prof in simfast simchk; do
     if ! (cd "$SIM" && cargo build --offline --quiet --profile "$prof") >"$log" 2>&1; then
       echo "HARNESS-ERROR: cargo build --profile $prof failed (log: $log)" >&2
@@ -26,6 +44,7 @@ build() {
       return 2
     fi
   done
+  echo "$now" > "$stamp"
   return 0
 }
 
@@ -46,6 +65,7 @@ conc_build() {
   local r; r="$(repo_path)"
   mkdir -p "$CONC/ckc-rs" "$CONC/sim/.cargo" || return 1
   rsync -a --delete --exclude target --exclude .git "$r"/ "$CONC/ckc-rs/" || return 1
+  find "$CONC/ckc-rs" -type f -exec touch {} +   # rsync keeps time stamps; cargo must see the copy as new
   find "$CONC/ckc-rs/src" -name '*.rs' -print0 | xargs -0 sed -i 's/core::sync::atomic/shuttle::sync::atomic/g; s/core::hint::spin_loop/shuttle::hint::spin_loop/g'
   grep -q '^shuttle' "$CONC/ckc-rs/Cargo.toml" || sed -i 's/^\[dependencies\]$/[dependencies]\nshuttle = "0.9.3"/' "$CONC/ckc-rs/Cargo.toml"
   rsync -a --delete "$SIM/src/" "$CONC/sim/src/" || return 1
@@ -122,11 +142,10 @@ case "${1:-}" in
     case "$tier" in quick|thorough) ;; *) echo "usage: check.sh <C15|C19> <quick|thorough>" >&2; exit 2;; esac
     "$ROOT/scripts/premise_audit.sh" || true
     build || exit 2
-    rm -f "$ROOT/replays/$prop-"* 2>/dev/null   # replay files of earlier runs of this property would only mislead
     concargs=()
     if has_atomics; then
       # the tree has process-wide atomics: put them behind shuttle's scheduler and explore callers' interleavings
-      rep="$SIM/target/run/$prop-$tier-conc.json"; mkdir -p "$SIM/target/run"; rm -f "$rep"
+      rep="$SIM/target/run/$prop-$tier-conc-$$.json"; mkdir -p "$SIM/target/run"; rm -f "$rep"
       if conc_build; then
         iters=15000; secs=60; [ "$tier" = thorough ] && { iters=300000; secs=900; }
         "$CONCBIN" conc --prop "$prop" --root "$ROOT" --iterations "$iters" --max-secs "$secs" --out "$rep" >/dev/null 2>"$SIM/target/conc-run.log"
@@ -136,7 +155,9 @@ case "${1:-}" in
       fi
     fi
     "$FAST" check --prop "$prop" --tier "$tier" --root "$ROOT" --other-bin "$CHK" "${concargs[@]}"
-    exit $?
+    rc=$?
+    [ -n "${rep:-}" ] && rm -f "$rep"
+    exit $rc
     ;;
   *)
     echo "usage: check.sh <C15|C19> <quick|thorough> | replay <file> | setup" >&2
